@@ -162,7 +162,7 @@ func sameLayout(t reflect.Type, spec []FieldT, path string) error {
 		}
 		if multi {
 			declFirst := len(f.Tag) > 4 && f.Tag[:4] == "avp:"
-			specFirst := ft.Tag == TagPost || ft.Tag == TagPostOmit
+			specFirst := ft.Tag == TagPost || ft.Tag == TagPostOmit || ft.Tag == TagPostJOmit
 			if declFirst != specFirst {
 				return fmt.Errorf("%s: declared tag `%s` and the spec's tag form %q disagree about the key order", p, f.Tag, ft.Tag)
 			}
